@@ -129,9 +129,10 @@ inductive ODec where
 inductive Nlri where
   /-- IPv4 (`v6 = false`, 4 address bytes) or IPv6 (`v6 = true`, 16 address bytes) prefix -/
   | ip (v6 : Bool) (addr : Bytes) (mask : Nat)
-  /-- NLRI of a family outside the model: its wire bytes as measured on the real encoder (or panic / `Err`)
-      + decode probe -/
-  | opq (enc : Out Bytes) (dec : ODec)
+  /-- NLRI of a family outside the model: its wire bytes as measured on the real encoder (or panic / `Err`),
+      the decode probe, and `wire` = the value has a wire form by its family's RFC (decided from the INPUT, not
+      by the encoder: the only reason for "none" is a label stack whose bit count exceeds the length octet) -/
+  | opq (enc : Out Bytes) (dec : ODec) (wire : Bool)
   deriving DecidableEq, Repr, Inhabited
 
 structure Entry where
@@ -154,11 +155,12 @@ inductive Msg where
 structure FamState where
   rx : Bool
   tx : Bool
+  /-- RFC 8950: both speakers advertised an IPv6 next hop for this family -/
+  enh : Bool
   deriving DecidableEq, Repr, Inhabited
 
 structure Codec where
   extLen : Bool
-  extNh : Bool
   fams : List (Fam × FamState)
   twoByte : Bool
   deriving DecidableEq, Repr, Inhabited
@@ -208,10 +210,10 @@ def negotiate (loc rem : List Cap) : Codec :=
   let common := rmap.filterMap (fun (frc : Fam × Raw) =>
     (lookup frc.1 lmap).map (fun lc => (frc.1, lc, frc.2)))
   { extLen := hasEm loc && hasEm rem
-    extNh := common.any (fun x => x.2.1.extNh && x.2.2.extNh)
     fams := common.map (fun x =>
       (x.1, { rx := bit0 x.2.1.addpath && bit1 x.2.2.addpath
-              tx := bit1 x.2.1.addpath && bit0 x.2.2.addpath }))
+              tx := bit1 x.2.1.addpath && bit0 x.2.2.addpath
+              enh := x.2.1.extNh && x.2.2.extNh }))
     twoByte := !(hasAs4 loc && hasAs4 rem) }
 
 def Codec.maxLen (c : Codec) : Nat := if c.extLen then 65535 else 4096
@@ -220,6 +222,13 @@ def Codec.maxLen (c : Codec) : Nat := if c.extLen then 65535 else 4096
 def Codec.addpathTx (c : Codec) (f : Fam) : Bool :=
   match lookup f c.fams with
   | some s => s.tx
+  | none => false
+
+/-- `ipv4_via_mp`: `self.families.get(&Family::IPV4).is_some_and(|s| s.extended_nexthop)` — IPv4 unicast travels in
+    MP_REACH_NLRI / MP_UNREACH_NLRI when the extended next hop is in force for IPv4 unicast -/
+def Codec.extNh (c : Codec) : Bool :=
+  match lookup Fam.ipv4 c.fams with
+  | some s => s.enh
   | none => false
 
 /-! ### `Capability::encode` -/
@@ -401,7 +410,7 @@ def Nlri.encode : Nlri → Out Bytes
   | .ip _ addr mask =>
       -- `self.addr.octets()[i]` for `i < mask.div_ceil(8)` indexes out of range when the mask is too long
       if ceil8 mask ≤ addr.length then .ok (mask :: addr.take (ceil8 mask)) else .panic
-  | .opq enc _ => enc
+  | .opq enc _ _ => enc
 
 def Nh.bytes : Nh → Bytes
   | .v4 a => a
